@@ -2,11 +2,16 @@
   GV.Props.C15 — maps use Go key equality for every comparable key type.
 
   Model: GV.Model.MapKey (`keyFor` per kind, `$floatKey`, `$idKey`, escaping/joining) and GV.Model.GoMap
-  (JS `Map`, emitted operations, range loop).  Spec: GV.Spec.MapKey (Go `==`, abstract finite map).
+  (JS `Map`, emitted operations, range loop) — the code AS REPAIRED by /verif/fixes/C15-complex-nan-key,
+  C15-float-array-nan-key, C15-iface-type-id-key.  Spec: GV.Spec.MapKey (Go `==`, abstract finite map).
 
-  Full-strength statement `key_injective_full` is FALSE of the code as it is: three counterexamples are
-  proved (`key_injective_counterexample_*`, `not_key_injective`).  `key_injective_partial` proves the
-  statement for all key types and values under explicit decidable hypotheses that exclude exactly those.
+  Everything is at full strength. What the statements assume, explicitly:
+    * `ToStringOK fs` — ECMAScript `Number::toString` on finite non-zero doubles is injective, prints no `$`, and
+      never prints "NaN", "Infinity", "-Infinity" or "0" (hypothesis, not an axiom; `halfFs_ok` shows the driver's
+      instance meets it);
+    * the two values have the map's key type (`wt`), and the prelude state is reachable (`Inv`, preserved by every
+      `keyFor` call, true initially);
+    * modelling: the dynamic type of an interface value is identified by its `typ.id`; struct types have no blank fields.
 -/
 import GV.Model.MapKey
 import GV.Model.GoMap
@@ -33,202 +38,164 @@ theorem join_esc_injective (l1 l2 : List Str) (hlen : l1.length = l2.length)
 theorem decNat_injective (a b : Nat) (h : decNat a = decNat b) : a = b := GV.Proofs.MapKeyStr.decNat_injective a b h
 theorem decInt_injective (a b : Int) (h : decInt a = decInt b) : a = b := GV.Proofs.MapKeyStr.decInt_injective a b h
 
-/-- `String(f) = String(g)` exactly when Go says `f == g`, for non-NaN floats -/
-theorem numStr_injective (f g : Flt) (hf : f ≠ .nan) (hg : g ≠ .nan) (wf : fwt f = true) (wg : fwt g = true) :
-    numStr f = numStr g ↔ fltEq f g = true := GV.Proofs.MapKeyStr.numStr_injective f g hf hg wf wg
+/-- the stated hypothesis on `Number::toString` (see `GV.Proofs.MapKeyStr.ToStringOK`) -/
+abbrev ToStringOK := GV.Proofs.MapKeyStr.ToStringOK
+
+/-- under it, `String(f) = String(g)` exactly when Go says `f == g`, for non-NaN floats -/
+theorem numStr_injective {fs : Int → Str} (hfs : ToStringOK fs) (f g : Flt) (hf : f ≠ .nan) (hg : g ≠ .nan)
+    (wf : fwt f = true) (wg : fwt g = true) : numStr fs f = numStr fs g ↔ fltEq f g = true :=
+  GV.Proofs.MapKeyStr.numStr_injective hfs f g hf hg wf wg
+
+/-- the hypothesis is satisfiable: the exact printing of the multiples of 1/2 (what the driver runs) meets it -/
+theorem toStringOK_halfFs : ToStringOK halfFs := halfFs_ok
 
 /-! ### key equality = Go equality -/
 
-/-- FULL STRENGTH (not claimed — false today): for every key type `τ`, values `a b : τ`, evaluated one after
-    the other in any reachable prelude state, the JS Map keys coincide exactly when Go's `a == b`. -/
-def key_injective_full : Prop :=
-  ∀ (reg : Nat → Str) (shape : Nat → KType) (τ : KType) (a b : KVal) (s1 s2 : KSt),
-    wt shape τ a = true → wt shape τ b = true → Inv s1 → Inv s2 → Le (keyFor reg a s1).2 s2 →
-    ((keyFor reg a s1).1 = (keyFor reg b s2).1 ↔ goEq a b = true)
+/-- FULL STRENGTH: for every key type `τ`, all values `a b : τ` (bool, integers of every width, int64/uint64 pairs,
+    floats with NaN / ±0 / ±Inf, complex, strings with arbitrary bytes, pointers and channels, interfaces, arrays,
+    structs, nested to any depth, named or not), evaluated one after the other in any reachable prelude state, the two
+    JS Map keys coincide EXACTLY when Go's `a == b`: NaN never equal (also inside complex numbers and float arrays),
+    +0 == -0, interfaces by dynamic type identity and value, arrays/structs element-wise, pointers by identity. -/
+theorem key_injective {fs : Int → Str} (hfs : ToStringOK fs) (shape : Nat → KType) (τ : KType) (a b : KVal)
+    (s1 s2 : KSt) (ha : wt shape τ a = true) (hb : wt shape τ b = true)
+    (i1 : Inv s1) (i2 : Inv s2) (hle : Le (keyFor fs a s1).2 s2) :
+    (keyFor fs a s1).1 = (keyFor fs b s2).1 ↔ goEq a b = true :=
+  key_inj hfs shape τ a b s1 s2 ha hb i1 i2 hle
 
-/-- PARTIAL (proved, all key types / values / states): if dynamic type strings identify the type and contain
-    no `$` (`RegOK`), and neither value holds a complex number with a NaN component or a float array with a NaN
-    element (`good`), then the two Map keys coincide exactly when Go's `==` holds (NaN never equal, +0 == -0,
-    interfaces by dynamic type identity and value, arrays/structs element-wise, pointers by identity). -/
-theorem key_injective_partial (reg : Nat → Str) (hreg : RegOK reg) (shape : Nat → KType) (τ : KType) (a b : KVal)
-    (s1 s2 : KSt) (ha : wt shape τ a = true) (hb : wt shape τ b = true) (ga : good a = true) (gb : good b = true)
-    (i1 : Inv s1) (i2 : Inv s2) (hle : Le (keyFor reg a s1).2 s2) :
-    (keyFor reg a s1).1 = (keyFor reg b s2).1 ↔ goEq a b = true :=
-  key_inj reg hreg shape τ a b s1 s2 ha hb ga gb i1 i2 hle
+/-- the same for the driver's instance, with no hypothesis on `toString` left -/
+theorem key_injective_halfFs (shape : Nat → KType) (τ : KType) (a b : KVal)
+    (s1 s2 : KSt) (ha : wt shape τ a = true) (hb : wt shape τ b = true)
+    (i1 : Inv s1) (i2 : Inv s2) (hle : Le (keyFor halfFs a s1).2 s2) :
+    (keyFor halfFs a s1).1 = (keyFor halfFs b s2).1 ↔ goEq a b = true :=
+  key_injective halfFs_ok shape τ a b s1 s2 ha hb i1 i2 hle
 
-/-- the hypotheses are decidable -/
-instance (v : KVal) : Decidable (good v = true) := inferInstance
-
-theorem regOK_dec : RegOK (fun i => 84 :: decNat i) := by
-  constructor
-  · intro i h
-    rcases List.mem_cons.mp h with h | h
-    · omega
-    · exact no_dollar_decNat i h
-  · intro i j h
-    exact GV.Proofs.MapKeyStr.decNat_injective i j (List.cons.inj h).2
-
-/-- the hypotheses of `key_injective_partial` are satisfiable by a non-trivial pair: struct keys
-    `{"$", interface(T1(NaN)), [2]float{-0, 1.5}}` and `{"$", interface(T1(NaN)), [2]float{+0, 1.5}}`
-    (not equal: the NaN inside the interface), and the theorem applies to them. -/
-theorem key_injective_partial_sat :
-    let reg : Nat → Str := fun i => 84 :: decNat i
-    let shape : Nat → KType := fun _ => .float
-    let τ : KType := .struct (.cons .string (.cons .iface (.cons (.array .float 2) .nil)))
-    let a : KVal := .tuple false (.cons (.str [36]) (.cons (.iface 1 (.float .nan))
-      (.cons (.tuple true (.cons (.float (.zero true)) (.cons (.float (.fin 3)) .nil))) .nil)))
-    let b : KVal := .tuple false (.cons (.str [36]) (.cons (.iface 1 (.float .nan))
-      (.cons (.tuple true (.cons (.float (.zero false)) (.cons (.float (.fin 3)) .nil))) .nil)))
-    RegOK reg ∧ wt shape τ a = true ∧ wt shape τ b = true ∧ good a = true ∧ good b = true ∧ Inv KSt.init ∧
-      goEq a b = false ∧ (keyFor reg a KSt.init).1 ≠ (keyFor reg b (keyFor reg a KSt.init).2).1 := by
-  intro reg shape τ a b
-  have hr : RegOK reg := regOK_dec
-  have ha : wt shape τ a = true := by decide
-  have hb : wt shape τ b = true := by decide
-  have ga : good a = true := by decide
-  have gb : good b = true := by decide
-  have hq : goEq a b = false := by decide
-  refine ⟨hr, ha, hb, ga, gb, inv_init, hq, ?_⟩
-  intro h
-  have := (key_injective_partial reg hr shape τ a b KSt.init _ ha hb ga gb inv_init
-    (keyFor_mono reg a KSt.init inv_init).1 (Le.refl _)).mp h
-  rw [hq] at this; cases this
-
-/-! ### the three recorded defects, as proved counterexamples of `key_injective_full` -/
-
-def reg0 : Nat → Str := fun i => if i ≤ 2 then [84] else 84 :: decNat i
-def shape0 : Nat → KType := fun _ => .int
-
-/-- complex keys with a NaN component collide (types.js:127,136): `complex(NaN, 1)` twice gives `"NaN$1"` twice -/
-theorem key_injective_counterexample_complex_nan :
-    let a : KVal := .complex .nan (.fin 2)
-    wt shape0 .complex a = true ∧ goEq a a = false ∧
-      (keyFor reg0 a KSt.init).1 = (keyFor reg0 a (keyFor reg0 a KSt.init).2).1 := by
-  refine ⟨by decide, by decide, ?_⟩
-  simp [keyFor]
-
-/-- `[1]float64{NaN}` keys collide (types.js:147-151: the Float64Array swallows the `NaN$id` string) -/
-theorem key_injective_counterexample_float_array_nan :
+/-- the three formerly colliding witnesses now get distinct keys: `complex(NaN, 1)` twice, `[1]float64{NaN}` twice,
+    and `T(5)` for two distinct types 1 and 2 (whatever their names are) -/
+theorem key_injective_former_witnesses :
+    let s0 := KSt.init
+    let c : KVal := .complex .nan (.fin 2)
     let a : KVal := .tuple true (.cons (.float .nan) .nil)
-    wt shape0 (.array .float 1) a = true ∧ goEq a a = false ∧
-      (keyFor reg0 a KSt.init).1 = (keyFor reg0 a (keyFor reg0 a KSt.init).2).1 := by
-  refine ⟨by decide, by decide, ?_⟩
-  simp [keyFor, keysFor, typedArrayCoerce]
+    let i1 : KVal := .iface 1 (.int 5)
+    let i2 : KVal := .iface 2 (.int 5)
+    (keyFor halfFs c s0).1 ≠ (keyFor halfFs c (keyFor halfFs c s0).2).1 ∧
+    (keyFor halfFs a s0).1 ≠ (keyFor halfFs a (keyFor halfFs a s0).2).1 ∧
+    (keyFor halfFs i1 s0).1 ≠ (keyFor halfFs i2 (keyFor halfFs i1 s0).2).1 := by
+  intro s0 c a i1 i2
+  have hs := fun v => keyFor_mono halfFs v KSt.init inv_init
+  refine ⟨?_, ?_, ?_⟩
+  · intro h
+    have := (key_injective_halfFs (fun _ => .int) .complex c c s0 _ (by decide) (by decide) inv_init (hs c).1 (Le.refl _)).mp h
+    revert this; decide
+  · intro h
+    have := (key_injective_halfFs (fun _ => .int) (.array .float 1) a a s0 _ (by decide) (by decide) inv_init (hs a).1 (Le.refl _)).mp h
+    revert this; decide
+  · intro h
+    have := (key_injective_halfFs (fun _ => .int) .iface i1 i2 s0 _ (by decide) (by decide) inv_init (hs i1).1 (Le.refl _)).mp h
+    revert this; decide
 
-/-- interface keys of two distinct dynamic types (ids 1 and 2) with the same type string collide (types.js:46) -/
-theorem key_injective_counterexample_iface_type_string :
-    let a : KVal := .iface 1 (.int 5)
-    let b : KVal := .iface 2 (.int 5)
-    wt shape0 .iface a = true ∧ wt shape0 .iface b = true ∧ goEq a b = false ∧
-      (keyFor reg0 a KSt.init).1 = (keyFor reg0 b (keyFor reg0 a KSt.init).2).1 := by
-  refine ⟨by decide, by decide, by decide, ?_⟩
-  simp [keyFor, reg0]
+/-! ### repaired defects: the old schemes and why they were wrong (kept as theorems about the OLD code) -/
 
-theorem not_key_injective : ¬ key_injective_full := by
-  intro h
-  have c := key_injective_counterexample_complex_nan
-  simp only at c
-  have := (h reg0 shape0 .complex _ _ KSt.init _ c.1 c.1 inv_init
-    (keyFor_mono reg0 _ KSt.init inv_init).1 (Le.refl _)).mp c.2.2
-  rw [c.2.1] at this; cases this
+/-- OLD complex keyFor (types.js:127,136 before the repair): `x.$real + "$" + x.$imag` -/
+def oldComplexKey (fs : Int → Str) (re im : Flt) : Str := numStr fs re ++ 36 :: numStr fs im
+
+/-- it did not depend on the evaluation: `complex(NaN, y)` always had the key `"NaN$…"`, although `NaN != NaN` -/
+theorem old_complex_nan_collides (fs : Int → Str) (im : Flt) :
+    fltEq .nan .nan = false ∧ oldComplexKey fs .nan im = sNaN ++ 36 :: numStr fs im := ⟨rfl, rfl⟩
+
+/-- OLD array keyFor on `[n]float64`: the component key string went through a Float64Array, so `"NaN\$7"` became the
+    number NaN and printed as `"NaN"` -/
+def oldFloatArrayComponent (f : Flt) (escapedKey : Str) : Str :=
+  match f with
+  | .nan => sNaN
+  | _ => escapedKey
+
+theorem old_float_array_nan_collides (k1 k2 : Str) : oldFloatArrayComponent .nan k1 = oldFloatArrayComponent .nan k2 := rfl
+
+/-- OLD `$ifaceKeyFor`: `c.string + "$" + key`; two distinct types with one name gave one key -/
+def oldIfaceKey (typeString : Nat → Str) (tid : Nat) (inner : Str) : Str := typeString tid ++ 36 :: inner
+
+theorem old_iface_type_string_collides (typeString : Nat → Str) (t1 t2 : Nat) (inner : Str)
+    (hname : typeString t1 = typeString t2) : oldIfaceKey typeString t1 inner = oldIfaceKey typeString t2 inner := by
+  simp [oldIfaceKey, hname]
 
 /-! ### `$idKey` and the state -/
 
 /-- `$idKey` gives two objects the same key exactly when they are the same object, in every reachable state -/
 theorem idKey_injective (o1 o2 : Nat) (s : KSt) (h : Inv s) :
     (idKey o1 s).1 = (idKey o2 (idKey o1 s).2).1 ↔ o1 = o2 := by
-  have := key_injective_partial (fun i => 84 :: decNat i) regOK_dec (fun _ => .int) .ref (.ref o1) (.ref o2) s
-    (keyFor (fun i => 84 :: decNat i) (.ref o1) s).2 (by simp [wt]) (by simp [wt]) (by simp [good]) (by simp [good]) h
+  have := key_injective_halfFs (fun _ => .int) .ref (.ref o1) (.ref o2) s
+    (keyFor halfFs (.ref o1) s).2 (by simp [wt]) (by simp [wt]) h
     (keyFor_mono _ _ s h).1 (Le.refl _)
   simpa [keyFor, goEq] using this
 
-/-- every `keyFor` call keeps the state invariant and only moves the state forward -/
-theorem keyFor_state_mono (reg : Nat → Str) (v : KVal) (s : KSt) (h : Inv s) :
-    Inv (keyFor reg v s).2 ∧ Le s (keyFor reg v s).2 := keyFor_mono reg v s h
+/-- every `keyFor` call keeps the state invariant and only moves the state forward; the initial state satisfies it -/
+theorem keyFor_state_mono (fs : Int → Str) (v : KVal) (s : KSt) (h : Inv s) :
+    Inv (keyFor fs v s).2 ∧ Le s (keyFor fs v s).2 := keyFor_mono fs v s h
+
+theorem state_inv_init : Inv KSt.init := inv_init
 
 /-! ### histories: the JS `Map` encoding refines the abstract map modulo `==` -/
 
-/-- FULL STRENGTH (not claimed — false today because key equality is): every history gives the same outputs on the
-    JS encoding and on the abstract map, for every key type. -/
-def map_refines_full : Prop :=
-  ∀ (reg : Nat → Str) (shape : Nat → KType) (τ : KType) (ops : List Op),
-    (∀ op ∈ ops, match op with
-      | .store k _ | .delete k | .index k | .commaOk k => wt shape τ k = true
-      | .literal es => ∀ e ∈ es, wt shape τ e.1 = true
-      | _ => True) →
-    run reg MSt.init ops = runS none ops
+/-- FULL STRENGTH: for every key type `τ` and EVERY history of store / overwrite / delete / index / comma-ok / len /
+    make / nil-assignment / literal / unhashable-store whose keys are values of `τ`, the outputs on the JS encoding equal
+    the outputs on the abstract finite map modulo Go `==`, starting from the nil map (which reads as empty and panics
+    on store). -/
+theorem map_refines {fs : Int → Str} (hfs : ToStringOK fs) (shape : Nat → KType) (τ : KType) (ops : List Op)
+    (hops : ∀ op ∈ ops, OpOK shape τ op) : run fs MSt.init ops = runS none ops :=
+  run_refines hfs ops MSt.init none inv_init hops
 
-/-- witness: `m := make(map[complex128]int); m[NaN+NaNi] = 1; m[NaN+NaNi] = 2; len(m)` is 1 on the JS encoding, 2 in Go -/
-theorem map_refines_counterexample : ¬ map_refines_full := by
-  intro h
-  have := h reg0 shape0 .complex
-    [.make, .store (.complex .nan .nan) 1, .store (.complex .nan .nan) 2, .len] (by
-      intro op hop
-      simp only [List.mem_cons, List.mem_nil_iff, or_false] at hop
-      rcases hop with rfl | rfl | rfl | rfl <;> simp [wt, fwt])
-  revert this
-  decide
-
-/-- PARTIAL (proved, every history): for every key type `τ` and every history of store / overwrite / delete / index /
-    comma-ok / len / make / nil-assignment / literal whose keys are values of `τ` covered by `key_injective_partial`,
-    starting from any related pair of states, the outputs on the JS encoding equal the outputs on the abstract map
-    modulo Go `==`.  In particular from the nil map: reads see an empty map, stores panic. -/
-theorem map_refines (reg : Nat → Str) (hreg : RegOK reg) (shape : Nat → KType) (τ : KType) (ops : List Op)
-    (hops : ∀ op ∈ ops, OpOK shape τ op) : run reg MSt.init ops = runS none ops :=
-  run_refines hreg ops MSt.init none inv_init hops
-
-/-- the same from any reachable pair of related states (the induction behind `map_refines`) -/
-theorem map_refines_from (reg : Nat → Str) (hreg : RegOK reg) (shape : Nat → KType) (τ : KType) (ops : List Op)
-    (ms : MSt) (gm : GoMapS) (h : RelO reg shape τ ms gm) (hops : ∀ op ∈ ops, OpOK shape τ op) :
-    run reg ms ops = runS gm ops :=
-  run_refines hreg ops ms gm h hops
+/-- the same from any pair of related states (the induction behind `map_refines`) -/
+theorem map_refines_from {fs : Int → Str} (hfs : ToStringOK fs) (shape : Nat → KType) (τ : KType) (ops : List Op)
+    (ms : MSt) (gm : GoMapS) (h : RelO fs shape τ ms gm) (hops : ∀ op ∈ ops, OpOK shape τ op) :
+    run fs ms ops = runS gm ops :=
+  run_refines hfs ops ms gm h hops
 
 /-- a nil map reads as empty, ignores deletes and panics on store — for every key, without any hypothesis -/
-theorem map_refines_nil (reg : Nat → Str) (s : KSt) (k : KVal) (v : Int) :
-    (step reg ⟨none, s⟩ (.index k)).2 = .val 0 ∧ (step reg ⟨none, s⟩ (.commaOk k)).2 = .valOk 0 false ∧
-    (step reg ⟨none, s⟩ .len).2 = .len 0 ∧ (step reg ⟨none, s⟩ (.delete k)).2 = .unit ∧
-    (step reg ⟨none, s⟩ (.delete k)).1.m = none ∧
-    (step reg ⟨none, s⟩ (.store k v)) = (⟨none, s⟩, .panicNilMap) := by
+theorem map_refines_nil (fs : Int → Str) (s : KSt) (k : KVal) (v : Int) :
+    (step fs ⟨none, s⟩ (.index k)).2 = .val 0 ∧ (step fs ⟨none, s⟩ (.commaOk k)).2 = .valOk 0 false ∧
+    (step fs ⟨none, s⟩ .len).2 = .len 0 ∧ (step fs ⟨none, s⟩ (.delete k)).2 = .unit ∧
+    (step fs ⟨none, s⟩ (.delete k)).1.m = none ∧
+    (step fs ⟨none, s⟩ (.store k v)) = (⟨none, s⟩, .panicNilMap) := by
   simp [step, outOfEntry]
 
-/-- the hypotheses of `map_refines` are satisfiable by a non-trivial history (string-pair keys with separators) -/
-example : ∃ ops : List Op, ops.length = 5 ∧
-    ∀ op ∈ ops, OpOK (fun _ => KType.int) (.struct (.cons .string (.cons .string .nil))) op :=
-  ⟨[.make, .store (.tuple false (.cons (.str [36]) (.cons (.str []) .nil))) 1,
-     .store (.tuple false (.cons (.str []) (.cons (.str [36]) .nil))) 2,
-     .commaOk (.tuple false (.cons (.str [92]) (.cons (.str [36, 36]) .nil))), .len], rfl, by
+/-- the typing hypothesis of `map_refines` is satisfiable by a non-trivial history: complex keys with NaN components
+    (the former counterexample) — and the theorem then says `len` is 2, as in Go -/
+example : run halfFs MSt.init [.make, .store (.complex .nan .nan) 1, .store (.complex .nan .nan) 2, .len]
+    = [.unit, .unit, .unit, .len 2] := by
+  rw [map_refines halfFs_ok (fun _ => .int) .complex _ (by
     intro op hop
     simp only [List.mem_cons, List.mem_nil_iff, or_false] at hop
-    rcases hop with rfl | rfl | rfl | rfl | rfl <;> simp [OpOK, OKKey, wt, wtEach, good, goods, arrElemOK]⟩
+    rcases hop with rfl | rfl | rfl | rfl <;> simp [OpOK, OKKey, wt, fwt])]
+  decide
 
 /-! ### the range loop (statements.go:211-236), for EVERY loop body that stores into / deletes from the map -/
 
 /-- the visits of one `for k, v := range m` happen at strictly increasing slot positions: no entry (one creation of a
     key) is visited twice; an entry created during the loop is visited at most once per creation -/
-theorem range_visits_increasing {σ : Type} (reg : Nat → Str) (body : Body σ) (jm : JMap) (st : KSt) (u : σ) :
-    ((range reg body jm st u).visited.map (·.1)).Pairwise (· < ·) :=
-  GV.Proofs.GoMapRange.range_visits_increasing reg body jm st u
+theorem range_visits_increasing {σ : Type} (fs : Int → Str) (body : Body σ) (jm : JMap) (st : KSt) (u : σ) :
+    ((range fs body jm st u).visited.map (·.1)).Pairwise (· < ·) :=
+  GV.Proofs.GoMapRange.range_visits_increasing fs body jm st u
 
-theorem range_visits_nodup {σ : Type} (reg : Nat → Str) (body : Body σ) (jm : JMap) (st : KSt) (u : σ) :
-    ((range reg body jm st u).visited.map (·.1)).Nodup :=
-  GV.Proofs.GoMapRange.range_visits_nodup reg body jm st u
+theorem range_visits_nodup {σ : Type} (fs : Int → Str) (body : Body σ) (jm : JMap) (st : KSt) (u : σ) :
+    ((range fs body jm st u).visited.map (·.1)).Nodup :=
+  GV.Proofs.GoMapRange.range_visits_nodup fs body jm st u
 
 /-- an entry deleted before the loop reaches it is never visited: from any loop state in which slot `p` is empty and
     unvisited, the remaining `n` iterations never visit `p`, whatever the body does (deleted slots are never refilled —
     re-inserting the key creates a new slot — and the live iterator only reports live slots) -/
-theorem range_skips_deleted {σ : Type} (reg : Nat → Str) (body : Body σ) (p n : Nat) (s : LoopSt σ)
+theorem range_skips_deleted {σ : Type} (fs : Int → Str) (body : Body σ) (p n : Nat) (s : LoopSt σ)
     (hd : s.jm[p]? = some none) (hv : ∀ x ∈ s.visited, x.1 ≠ p) :
-    ∀ x ∈ (rangeLoop reg body n s).visited, x.1 ≠ p :=
-  GV.Proofs.GoMapRange.rangeLoop_skips_deleted reg body p n s hd hv
+    ∀ x ∈ (rangeLoop fs body n s).visited, x.1 ≠ p :=
+  GV.Proofs.GoMapRange.rangeLoop_skips_deleted fs body p n s hd hv
 
 /-- every visit reports an entry that is in the map at that moment (`get` re-check), and an iteration whose re-check
     fails visits nothing -/
-theorem range_visit_live {σ : Type} (reg : Nat → Str) (body : Body σ) (n : Nat) (s : LoopSt σ) (e : Entry)
+theorem range_visit_live {σ : Type} (fs : Int → Str) (body : Body σ) (n : Nat) (s : LoopSt σ) (e : Entry)
     (h : (JMap.next s.jm s.it).1.bind (JMap.get s.jm) = some e) :
     (∃ k, s.jm.get k = some e) ∧
-    ∃ s', rangeLoop reg body (n + 1) s = rangeLoop reg body n s' ∧
+    ∃ s', rangeLoop fs body (n + 1) s = rangeLoop fs body n s' ∧
       s'.visited = s.visited ++ [(((JMap.next s.jm s.it).2.getD 0) - 1, e)] :=
-  GV.Proofs.GoMapRange.rangeLoop_visit_live reg body n s e h
+  GV.Proofs.GoMapRange.rangeLoop_visit_live fs body n s e h
 
 theorem count_one_of_nodup_mem : ∀ (l : List Nat) (a : Nat), l.Nodup → a ∈ l → l.count a = 1
   | [], _, _, m => by simp at m
@@ -248,27 +215,27 @@ theorem count_one_of_nodup_mem : ∀ (l : List Nat) (a : Nat), l.Nodup → a ∈
     store and delete any other keys —: that entry is visited exactly once by `for k, v := range m`.
     (At most once: positions increase. At least once: the `_size` snapshot equals the number of live slots at the start;
     every `next()` consumes one distinct slot that was live at the start before reaching `p`, so the budget suffices.) -/
-theorem range_spec {σ : Type} (reg : Nat → Str) (body : Body σ) (jm : JMap) (st : KSt) (u : σ) (p : Nat) (k : JKey)
+theorem range_spec {σ : Type} (fs : Int → Str) (body : Body σ) (jm : JMap) (st : KSt) (u : σ) (p : Nat) (k : JKey)
     (hstart : GV.Proofs.GoMapRangeOnce.Keep p k jm)
     (hbody : ∀ (x : Entry) (u' : σ) (jm' : JMap) (st' : KSt), GV.Proofs.GoMapRangeOnce.Keep p k jm' →
-      GV.Proofs.GoMapRangeOnce.Keep p k ((body x u').1.foldl (applyMut reg) (jm', st')).1) :
-    ((range reg body jm st u).visited.map (·.1)).count p = 1 := by
-  apply count_one_of_nodup_mem _ _ (range_visits_nodup reg body jm st u)
+      GV.Proofs.GoMapRangeOnce.Keep p k ((body x u').1.foldl (applyMut fs) (jm', st')).1) :
+    ((range fs body jm st u).visited.map (·.1)).count p = 1 := by
+  apply count_one_of_nodup_mem _ _ (range_visits_nodup fs body jm st u)
   obtain ⟨e, he⟩ := hstart
-  exact GV.Proofs.GoMapRangeOnce.reaches reg body p k hbody jm.size _ 0 rfl (Nat.zero_le _) ⟨e, he⟩
+  exact GV.Proofs.GoMapRangeOnce.reaches fs body p k hbody jm.size _ 0 rfl (Nat.zero_le _) ⟨e, he⟩
     (GV.Proofs.GoMapRangeOnce.liveIn_lt_size jm p (k, e) he)
 
 /-- a read-only loop visits every live entry exactly once (what the digests of the generated programs rely on) -/
-theorem range_readonly {σ : Type} (reg : Nat → Str) (f : Entry → σ → σ) (jm : JMap) (st : KSt) (u : σ) (p : Nat) (k : JKey)
+theorem range_readonly {σ : Type} (fs : Int → Str) (f : Entry → σ → σ) (jm : JMap) (st : KSt) (u : σ) (p : Nat) (k : JKey)
     (e : Entry) (h : jm[p]? = some (some (k, e))) :
-    ((range reg (fun x u' => ([], f x u')) jm st u).visited.map (·.1)).count p = 1 :=
-  range_spec reg _ jm st u p k ⟨e, h⟩ (fun _ _ _ _ hk => hk)
+    ((range fs (fun x u' => ([], f x u')) jm st u).visited.map (·.1)).count p = 1 :=
+  range_spec fs _ jm st u p k ⟨e, h⟩ (fun _ _ _ _ hk => hk)
 
 /-- the hypothesis of `range_spec` is satisfiable by a body that really mutates the map: ranging over {a, b, c} with a
     body that deletes `b` and stores a new key `d` keeps slot 0 (key `a`) -/
 example : ∃ (body : Body Unit) (jm : JMap), GV.Proofs.GoMapRangeOnce.Keep 0 (.num 1) jm ∧
     (∀ (x : Entry) (u' : Unit) (jm' : JMap) (st' : KSt), GV.Proofs.GoMapRangeOnce.Keep 0 (.num 1) jm' →
-      GV.Proofs.GoMapRangeOnce.Keep 0 (.num 1) ((body x u').1.foldl (applyMut (fun _ => [])) (jm', st')).1) :=
+      GV.Proofs.GoMapRangeOnce.Keep 0 (.num 1) ((body x u').1.foldl (applyMut halfFs) (jm', st')).1) :=
   ⟨fun _ _ => ([.delete (.int 2), .store (.int 4) 9], ()),
    [some (.num 1, (.int 1, 1)), some (.num 2, (.int 2, 2)), some (.num 3, (.int 3, 3))],
    ⟨_, rfl⟩, by
